@@ -27,6 +27,10 @@ def finding_key(req, obs, detail):
         eot = re.compile(r"\((?:E|B|T) \(")
         if key.startswith("tree-differs") and " ==> " in (obs or "") and not eot.search(req) and eot.search(obs.split(" ==> ", 1)[1]):
             key = pre + "(bin BitwiseAnd (id a) (id a)))"
+        # … and inside a tree that has template arguments of its own: the harness marks a failure whose *minimal* tree has
+        # no expression-or-type position although its printed text reads back with one (`a << a < a ? a : a > (a ? a : a)`)
+        if key.startswith("tree-differs") and " reread-invents-template-args min=" in (detail or ""):
+            key = pre + "(bin BitwiseAnd (id a) (id a)))"
         return key
     m = re.match(r"FAIL:panic ([^:]+):\d+: (.*)$", detail or "")
     if m:
